@@ -8,7 +8,10 @@ import (
 	"time"
 
 	cometabci "github.com/cometbft/cometbft/abci/types"
+	sdk "github.com/cosmos/cosmos-sdk/types"
+
 	cmtproto "github.com/cometbft/cometbft/proto/tendermint/types"
+	opchildtypes "github.com/initia-labs/OPinit/x/opchild/types"
 )
 
 // C18, oracle family: histories of signed MsgUpdateOracle (real opchild msg server, real connect
@@ -63,6 +66,20 @@ func c18HonestOracleOp(g *c15Gen, ts int64, pairs []int, extraIDs []uint64, note
 
 var c18AllPairs = []int{0, 1, 2, 3} // the pairs every oracle history creates (NEVER/USD, index 4, is never created)
 
+// c18OracleExec executes an op of an oracle history: the C15 kinds, plus "dephook" = a
+// MsgFinalizeTokenDeposit (sequence o.Height) whose bridge hook is the signed tx bytes o.Data
+func c18OracleExec(ce *c15Env, o C15Op) ExecResult {
+	if o.Kind != "dephook" {
+		return ce.exec(o)
+	}
+	e := ce.E
+	ctx := e.Ctx.WithBlockHeight(o.Blk)
+	return execAtomic(ctx, func(ctx sdk.Context) (interface{}, error) {
+		return e.Msg.FinalizeTokenDeposit(ctx, &opchildtypes.MsgFinalizeTokenDeposit{Sender: e.User(1).Str, From: "init1l1sender000000000000000000000000000",
+			To: e.User(4).Str, Amount: coinOf("l2/c18oracle", big.NewInt(5)), Sequence: o.Height, Height: 7, BaseDenom: "uinit", Data: o.Data})
+	})
+}
+
 type c18OracleHistory struct {
 	family string
 	seed   uint64
@@ -89,7 +106,13 @@ func c18GenOracle(seed uint64, id int, family string, base int64, nOps int, mode
 		o.Blk = g.blk
 		g.blk++
 		before := ce.readState()
-		ok := ce.Do(o, scratch)
+		var ok bool
+		if o.Kind == "dephook" {
+			ok = c18OracleExec(ce, o).OK
+		} else {
+			ok = ce.Do(o, scratch)
+		}
+		h.ops = append(h.ops, o)
 		h.valid = append(h.valid, valid)
 		h.genOK = append(h.genOK, ok)
 		unk := false
@@ -126,6 +149,7 @@ func c18GenOracle(seed uint64, id int, family string, base int64, nOps int, mode
 	}
 	g.applySet(first)
 	fresh := func() int64 { g.tsNext += 1000 + int64(r.Intn(1000)); return g.tsNext }
+	depSeq := uint64(0)
 	for i := 0; i < nOps; i++ {
 		switch mode { // shapes of the regression replays (c18OracleGasReplays)
 		case "unknown-ids":
@@ -147,9 +171,33 @@ func c18GenOracle(seed uint64, id int, family string, base int64, nOps int, mode
 			do(c18HonestOracleOp(g, fresh(), c18AllPairs, nil, "c18-honest"), true)
 			continue
 		}
+		// a relayer submits the very same bytes again (valid, but stale by now): directly, and as the
+		// bridge hook of a deposit (the refusal then ends up in the deposit event's reason attribute)
+		relayAgain := func(o C15Op) {
+			if o.Kind != "oracle" {
+				return
+			}
+			if r.Chance(50) {
+				o2 := o
+				o2.Note = o.Note + "-relayed-again"
+				do(o2, false)
+			}
+			if r.Chance(50) {
+				u := ce.E.User(1)
+				var accNum uint64
+				if acc := ce.E.AK.GetAccount(ce.E.Ctx, u.Addr); acc != nil {
+					accNum = acc.GetAccountNumber()
+				}
+				raw := ce.E.SignTx([]sdk.Msg{opchildtypes.NewMsgUpdateOracle(u.Str, o.Height, o.Data)}, u.Priv, accNum, ce.E.AccSeq(1), ce.E.Ctx.ChainID())
+				depSeq++
+				do(C15Op{Kind: "dephook", Height: depSeq, Data: raw, Note: "deposit whose hook relays the update of the previous step again"}, false)
+			}
+		}
 		switch r.Weighted([]int{40, 16, 14, 8, 8, 8, 6}) {
 		case 0: // honest, all created pairs, fresher than everything before
-			do(c18HonestOracleOp(g, fresh(), c18AllPairs, nil, "c18-honest"), true)
+			o := c18HonestOracleOp(g, fresh(), c18AllPairs, nil, "c18-honest")
+			do(o, true)
+			relayAgain(o)
 		case 1:
 			// the validators report only a subset of the pairs ...
 			sub := []int{0}
@@ -186,7 +234,6 @@ func c18GenOracle(seed uint64, id int, family string, base int64, nOps int, mode
 		case 6:
 		}
 	}
-	h.ops = ce.Ops
 	h.passBy = g.tsNext + 50_000_000
 	return h
 }
@@ -218,6 +265,8 @@ func (h *c18OracleHistory) human(base int64) []string {
 			out = append(out, fmt.Sprintf("set bridge info oracle=%v chain=%s client=%s", o.Oracle, o.Chain, o.Client))
 		case "mkpair":
 			out = append(out, "create currency pair "+c15PairNames[o.Pair])
+		case "dephook":
+			out = append(out, fmt.Sprintf("MsgFinalizeTokenDeposit sequence=%d by user1; hook = signed tx [MsgUpdateOracle]: %s", o.Height, o.Note))
 		}
 	}
 	return out
@@ -229,19 +278,26 @@ func (h *c18OracleHistory) execute(id int, spec []int, rep *Report) []c18Print {
 	for i, o := range h.ops {
 		if spec != nil {
 			for x := 0; x < spec[i]; x++ {
-				speculateL2(ce.E, func() { ce.exec(o) })
+				speculateL2(ce.E, func() { c18OracleExec(ce, o) })
 				rep.Hist("oracle:speculated")
 			}
 		}
 		freshGasL2(ce.E)
-		res := ce.exec(o)
+		res := c18OracleExec(ce, o)
 		out = append(out, printOf(res, ce.E.Ctx, ce.E.Keys))
 	}
 	return out
 }
 
-func (h *c18OracleHistory) executeOnOwnGoroutine(id int, spec []int, rep *Report) (out []c18Print) {
-	onOwnGoroutine(func() { out = h.execute(id, spec, rep) })
+func (h *c18OracleHistory) executeOnOwnGoroutine(id int, spec []int, rep *Report, env ...int) (out []c18Print) {
+	x := 0
+	if len(env) > 0 {
+		x = env[0]
+	} else {
+		c18EnvCounter++
+		x = c18EnvCounter
+	}
+	inLocalEnv(x, func() { out = h.execute(id, spec, rep) })
 	return out
 }
 
@@ -278,7 +334,7 @@ func genC18Oracle(rep *Report, seed uint64, tier string, R int, id *int) {
 						time.Sleep(d)
 					}
 				}
-				runs[x] = h.executeOnOwnGoroutine(*id, nil, rep)
+				runs[x] = h.executeOnOwnGoroutine(*id, nil, rep, x)
 			}
 			pad := func(ps []c18Print) []c18Print { return append([]c18Print{{OK: true}}, ps...) } // human has a header line
 			padded := make([][]c18Print, R)
@@ -313,6 +369,16 @@ func genC18Oracle(rep *Report, seed uint64, tier string, R int, id *int) {
 							v = "OK"
 						}
 						rep.Hist("oracle:" + o.Kind + ":" + v)
+						if o.Kind == "dephook" {
+							switch ev := runs[x][i].Events; {
+							case strings.Contains(ev, "oracle timestamp is old"):
+								rep.Hist("oracle:dephook:hook-refused-stale-timestamp")
+							case strings.Contains(ev, `"success"="true"`):
+								rep.Hist("oracle:dephook:hook-succeeded")
+							default:
+								rep.Hist("oracle:dephook:hook-failed-otherwise")
+							}
+						}
 					}
 					if h.valid[i] && !runs[x][i].OK {
 						rep.Violate(Violation{Case: *id, Step: i + 1, Sig: "C18:depends-on-wall-clock",
@@ -347,6 +413,8 @@ func genC18Oracle(rep *Report, seed uint64, tier string, R int, id *int) {
 	rep.Notes = append(rep.Notes, fmt.Sprintf("oracle family: %d histories with L1 timestamps in 2001, %d in 2200, %d at wall clock + 1.5 s (last execution after that instant); %d oracle updates accepted in the first executions",
 		nPast, nFuture, nNow, accepted))
 }
+
+var c18EnvCounter int // executions without an explicit index rotate through the environments
 
 // ---- known findings of the oracle path (known_findings.json), replayed on every run ----
 const (
